@@ -127,9 +127,11 @@ Lemma nmap_var_set c v x s : nmap c (var_set v x s) = var_set v x (nmap c s). Pr
 Lemma nmap_ci_put c k x s : nmap c (ci_put k x s) = ci_put k x (nmap c s). Proof. reflexivity. Qed.
 Lemma nmap_pop_task c s : nmap c (pop_task s) = pop_task (nmap c s). Proof. reflexivity. Qed.
 Lemma nmap_reset_sched c s : nmap c (reset_sched s) = reset_sched (nmap c s). Proof. reflexivity. Qed.
+Lemma nmap_drop_sb c s : nmap c (drop_sb s) = drop_sb (nmap c s).
+Proof. unfold drop_sb. rewrite tasks_nmap. destruct (tasks s); reflexivity. Qed.
 
 #[export] Hint Rewrite nmap_put nmap_set_task nmap_emit nmap_with_tasks nmap_with_active nmap_with_sb nmap_with_oracle
-  nmap_with_cur nmap_with_top_next nmap_put_batch nmap_var_set nmap_ci_put nmap_pop_task nmap_reset_sched : nm.
+  nmap_with_cur nmap_with_top_next nmap_put_batch nmap_var_set nmap_ci_put nmap_pop_task nmap_reset_sched nmap_drop_sb : nm.
 
 Lemma nmap_schedule_batch c k s : nmap c (schedule_batch k s) = schedule_batch k (nmap c s).
 Proof.
@@ -1004,6 +1006,7 @@ Ltac sh :=
   | |- shr ?t ?a (with_tasks ?X _) => apply (shr_trans t a X); [|sv]
   | |- shr ?t ?a (with_active ?X _) => apply (shr_trans t a X); [|sv]
   | |- shr ?t ?a (reset_sched ?X) => apply (shr_trans t a X); [|sv]
+  | |- shr ?t ?a (drop_sb ?X) => apply (shr_trans t a X); [|apply shr_view; apply heap_drop_sb]
   | |- shr ?t ?a (set_task ?x ?tk ?X) =>
       apply (shr_trans t a X); [|first [eapply shr_set_task; [eassumption|left; reflexivity]
                                         |eapply shr_set_task'; [eassumption|left; reflexivity]]]
@@ -1280,7 +1283,7 @@ Lemma cxr_trace_off :
    [EvStep [0%Z] 0 (Ok VNone); EvStep [0%Z] 1 (Ok (VInt 1)); EvStep [2%Z] 0 (Ok VNone); EvStep [0%Z] 2 (Ok VNone);
     EvGot [0%Z] (Err E_RUNTIME); EvStep [0%Z] 3 (Ok VNone); EvStep [5%Z] 0 (Ok VNone); EvResume [5%Z] 9;
     EvStep [0%Z] 4 (Ok VNone); EvDone [0%Z] (Ok (VInt 8)); EvStep [5%Z] 1 (Ok (VInt 8)); EvDone [5%Z] (Ok VNone);
-    EvGot [0%Z] (Ok VNone); EvSched 0 0 None]).
+    EvGot [0%Z] (Ok VNone); EvSched 0 0 (Some [0%Z])]).
 Proof. vm_compute. reflexivity. Qed.
 
 Lemma cxr_trace_on :
